@@ -1,5 +1,5 @@
 """Property -> rules registry.  Rules are added here as they are built; a property without rules is not claimed."""
-from .rules import determinism, panics, wiring, traversal, annot, shape, hygiene, enums, shrinking, fresh, sharing, codegen, abi, pmoves, labels, runtime, typing as typing_rules, formatting, linear, memory, termination
+from .rules import determinism, panics, wiring, traversal, annot, shape, hygiene, enums, shrinking, fresh, sharing, codegen, abi, pmoves, labels, runtime, typing as typing_rules, formatting, linear, memory, termination, focus
 
 
 def _thorough_only(rule):
@@ -24,7 +24,7 @@ PROPS = {
                         "round trip over all widths/indents is not enumerated; the token-level argument is layout-independent"],
     },
     "C15": {
-        "rules": [typing_rules.rule_zip, typing_rules.rule_dup, typing_rules.rule_nodup, typing_rules.rule_result, typing_rules.rule_clause_exits,
+        "rules": [typing_rules.rule_zip, typing_rules.rule_dup, typing_rules.rule_nodup, typing_rules.rule_result, typing_rules.rule_clause_exits, typing_rules.rule_lookup,
                   traversal.rule_trav(["fun::typing::check::Check"]), annot.rule_annot_check, panics.rule_panic(("A",))],
         "text": "Rejection discipline of the type checker, decided for every program: zips are length-guarded (R-ZIP), declarations are "
                 "inserted only after a duplicate check that returns Err (R-DUP), binder lists are checked for duplicates before use "
@@ -144,7 +144,7 @@ PROPS = {
         "assumptions": ["the degree of the polynomial is not decided; growth from other sources than duplicated continuations was not found by reading"],
     },
     "C02": {
-        "rules": [hygiene.rule_hyg, hygiene.rule_seed, enums.rule_enum_maps({"fun2core"}), enums.rule_enum_surface,
+        "rules": [hygiene.rule_hyg, hygiene.rule_seed, hygiene.rule_binders, hygiene.rule_fvscope, enums.rule_enum_maps({"fun2core"}), enums.rule_enum_surface,
                   traversal.rule_trav(["fun::traits::used_binders::UsedBinders", "fun2core::compile::Compile"])],
         "text": "Hygiene and naming clauses of the Fun->Core translation, decided for every program at once: (R-HYG) the incoming "
                 "consumer is never placed under a binder copied verbatim from the source; (R-SEED) fresh names are seeded from the "
@@ -157,7 +157,7 @@ PROPS = {
         "rules": [traversal.rule_trav(["scc_core_lang::traits::substitution::Subst", "scc_core_lang::traits::substitution::SubstVar",
                                    "scc_core_lang::traits::uniquify::Uniquify", "scc_core_lang::traits::focus::Focusing",
                                    "scc_core_lang::traits::focus::Bind", "scc_core_lang::traits::typed_free_vars::TypedFreeVars"]), wiring.rule_wire_intra, shape.rule_shape,
-                  fresh.rule_fresh, fresh.rule_maxid, fresh.rule_shadow],
+                  fresh.rule_fresh, fresh.rule_maxid, fresh.rule_shadow, focus.rule_bindorder],
         "text": "Structural necessary conditions of focusing: every Subst/SubstVar/Uniquify/Focusing/Bind/TypedFreeVars impl of Core "
                 "visits every subterm (R-TRAV), uniquify dominates the focusing of definitions (R-WIRE), and only producer-only "
                 "shapes reach the `cannot happen` arms of Term<Cns> (R-SHAPE). Does not decide evaluation order or semantic equivalence.",
@@ -174,7 +174,7 @@ PROPS = {
     },
     "C12": {
         "rules": [panics.rule_panic(("B",)), annot.rule_annot_check, annot.rule_annot_freevars, shape.rule_shape,
-                  traversal.rule_trav(["fun::typing::check::Check"]), wiring.rule_wire_intra],
+                  traversal.rule_trav(["fun::typing::check::Check"]), wiring.rule_wire_intra, hygiene.rule_fvscope],
         "text": "'No internal failure' clause: every panic-capable site reachable from the post-check stage entry points is audited, "
                 "and the annotation/shape classes are discharged by checked rules rather than trusted: Check sets every annotation on "
                 "every Ok path and visits every subterm (R-ANNOT, R-TRAV), free-variable and closure-environment annotations are set "
@@ -214,3 +214,24 @@ PROPS = {
                         "iteration order of Vec/BTreeMap/BTreeSet/VecDeque is a function of their contents"],
     },
 }
+
+
+def _compose_c01():
+    """C01 (end to end through x86-64) is the conjunction of the stage properties on that path: its check runs the wiring rules and
+    every rule of C02-C06, C14 and C20 (the x86-64 calling-convention rule of C13 is part of C06's list); a violation of any of
+    them changes what some compiled x86-64 executable does."""
+    seen = set()
+    out = []
+    for r in list(PROPS["C01"]["rules"]) + [r for p in ("C02", "C03", "C04", "C05", "C06", "C14", "C20") for r in PROPS[p]["rules"]]:
+        if id(r) in seen:
+            continue
+        seen.add(id(r))
+        out.append(r)
+    PROPS["C01"]["rules"] = out
+    PROPS["C01"]["text"] += (" In addition the check runs every rule of the stage properties on the x86-64 path (C02 translation hygiene, C03 focusing, "
+                             "C04 shrinking, C05 linearization, C06 x86-64 code generation incl. calling convention, parallel moves and memory "
+                             "management, C14 labels and jump tables, C20 runtime contract): C01 is their conjunction, and each of those rules "
+                             "reports constructs that change the behaviour of some compiled executable.")
+
+
+_compose_c01()
